@@ -48,7 +48,7 @@ package config
 //@   ensures len(result) <= len(strings.Split(input, ","))
 //@   assigns nothing
 //@   loop 1 invariant result != nil && len(result) <= $i
-//@   loop 1 invariant forall x string :: contains(result, x) <==> (exists k int :: 0 <= k && k < $i && strings.TrimSpace(parts[k]) != "" && x == listItem(parts[k], toUpper))
+//@   loop 1 invariant forall x string :: contains(result, x) <==> (exists k int :: 0 <= k && k < $i && strings.TrimSpace($seq[k]) != "" && x == listItem($seq[k], toUpper))
 //@   loop 1 invariant forall k int :: 0 <= k && k < len(result) ==> result[k] != ""
 
 //@ func parseEnvValue
